@@ -619,7 +619,9 @@ class LevelOverhang:
                 nonprop_drop += prev_gain
         adj_count = n_seats - nonprop_drop
         pmins = list(lowest_allowed.items())
-        while any(prop_result[party] < minimum for party, minimum in pmins):
+        while any(
+            prop_result.get(party, 0) < minimum for party, minimum in pmins
+        ):
             adj_count += 1
             prop_result = self.evaluator.evaluate(
                 votes, adj_count, max_seats=max_seats,
